@@ -1,6 +1,6 @@
 """C02 - generate honours constraints and returns the proper importance weight."""
 from ..common import Check
-from .. import gficheck
+from .. import gficheck, gfirecord
 
 QUICK = ["f2", "fn3", "fv", "fvf", "fs", "fc", "fd"]
 THOROUGH = QUICK + ["fr", "fa", "fvs", "fsc", "f3d", "cTF", "vf", "sc"]
@@ -19,4 +19,5 @@ def run(tier, argv):
     chk.cov["rule"] = ("every (program, argument, lane-closed subset of leaf addresses with every value assignment as constraint, outcome of "
                        "every unconstrained site) behaviour of DoGenerate; TLC also checks sum_scripts 2^(-mass+w) = marginal probability "
                        "of the constraint (GenUnbiased); replayed through seed(gf.generate)")
+    chk.cov["recorded_events"] = gfirecord.run_b(chk, {"generate"}, QUICK if tier == "quick" else THOROUGH, 12 if tier == "quick" else 150)
     return chk.finish()
